@@ -18,11 +18,13 @@ LEVEL = "model_checking"
 PROFILES_QUICK = [
     {"block_size": 1 << 20, "sector": 512, "k": 1, "full": True, "cap": 40},
     {"block_size": 256 << 20, "sector": 512, "k": 8, "full": False, "max_len": 2 << 20, "sel": 2},   # ratio 16: SB entries interleaved
-    {"block_size": 2 << 20, "sector": 4096, "k": 1, "full": False, "sel": 2},
+    {"block_size": 2 << 20, "sector": 4096, "k": 1, "full": False, "sel": 2, "stale": True},
+    {"block_size": 1 << 20, "sector": 512, "k": 1, "full": False, "sel": 3, "stale": True},
+    {"block_size": 32 << 20, "sector": 4096, "k": 512, "full": False, "max_len": 2 << 20, "sel": 5},  # 4K sectors, ratio 1024, > 1500 BAT entries
     {"block_size": 32 << 20, "sector": 512, "k": 64, "full": False, "max_len": 2 << 20, "sel": 4, "base_mb": 5 << 20},  # ratio 128, data beyond 2^42 bytes
 ]
 PROFILES_THOROUGH = PROFILES_QUICK + [
-    {"block_size": 32 << 20, "sector": 4096, "k": 512, "full": False, "max_len": 2 << 20, "sel": 4},  # ratio 1024
+    {"block_size": 1 << 20, "sector": 4096, "k": 4096, "full": False, "max_len": 2 << 20, "sel": 8},  # 4K sectors, > 12000 BAT entries
     {"block_size": 1 << 20, "sector": 4096, "k": 1, "full": True, "cap": 40, "sel": 3},
     {"block_size": 8 << 20, "sector": 512, "k": 1, "full": False, "base_mb": (1 << 43) // (1 << 20), "sel": 3},  # near the 44-bit MB field limit
     {"block_size": 256 << 20, "sector": 4096, "k": 64, "full": False, "max_len": 2 << 20, "sel": 4},  # ratio 128
@@ -46,7 +48,7 @@ def build(img, prof, size_bytes=None):
     cell = ab // cb
     if cell % prof["sector"]:
         return None
-    blocks = enc_vhdx.expand(img, k)
+    blocks = enc_vhdx.expand(img, k, stale=prof.get("stale", False))
     size_b = img["size"] * cell if size_bytes is None else size_bytes
     # drop real blocks beyond the (possibly shorter) disk size
     npb = -(-size_b // bs)
@@ -78,7 +80,8 @@ def make_trace(tid, rng, nops=25, **opt):
             pp.append(0)
     tail = rng.choice([0, 0, sector, bs // 2, bs - sector])
     size_b = n * bs - tail
-    blocks = [(st[i], pp[i] if st[i] == 6 else None) for i in range(n)]
+    stale = rng.random() < 0.5
+    blocks = [(st[i], pp[i] if st[i] == 6 else (rng.randrange(0, npos) if (stale and st[i] in (1, 2, 3)) else None)) for i in range(n)]
     vf, info = enc_vhdx.build(blocks, block_size=bs, sector_size=sector, disk_size=size_b, seqs=rng.choice([(5, 6), (6, 5), (0, 1), (7, 7)]),
                               reserved_bits=rng.choice([0, 0, 0x1FFFF]))
     b = disk.Built(open=lambda: _open(vf), cell=bs, size=size_b, bases={0: info["data_base"]}, sector=sector)
